@@ -135,7 +135,7 @@ Lemma BInv_delivered root x s s' rq rest t ti ti' ks : BInv root x s -> sreq_sca
   task_of s t = Some ti -> delivered s s' rq rest t ti ti' ks -> ti_disc ti' = ti_disc ti -> ti_deferred ti' = ti_deferred ti -> BInv root x s'.
 Proof.
   intros (HT & HC & HS) Hss Ht Hord Hg [D1 D2 D3 D4 D5 D6 D7 D8 D9 D10 D11 D12 D13 D14] Edisc Edef.
-  destruct HT as [T1 T2 T3 T4 T5 T6 T7].
+  destruct HT as [T2 T3 T4 T5 T6 T7].
   set (slot := iq_slot rq) in *. set (inp := iq_input rq) in *. set (sl := ti_slots ti) in *.
   assert (Hrq : Oreq2 s rq) by (right; right; rewrite D1; now left).
   destruct (T4 rq Hrq) as [Hw _]. destruct (Hw t Ht Hord) as (Hkey & ti0 & Hg0 & Hsl). rewrite Hg in Hg0. inversion Hg0. subst ti0. fold slot inp sl in Hkey, Hsl. clear Hw Hg0.
@@ -180,7 +180,6 @@ Proof.
     destruct (O1' y Hy) as [->|Hy']; [left; apply Hcurk; now rewrite <- H2|right; exists y; auto]. }
   split; [|split].
   - constructor.
-    + congruence.
     + congruence.
     + intros k Hc. unfold stored. rewrite HR. now apply T3, Hcurk.
     + intros y Ho. destruct (O2 y Ho) as [Hold|Hnew].
@@ -281,11 +280,10 @@ Proof.
     - left. now apply HU.
     - right. left. destruct (Hbw t0 z Hz) as (w & Hw & _ & _ & _ & Hrb & _). exists t0, w. split; auto. now rewrite <- Hrb.
     - right. right. rewrite Hq. right. now rewrite <- Hf. }
-  destruct HT as [T1 T2 T3 T4 T5 T6 T7].
+  destruct HT as [T2 T3 T4 T5 T6 T7].
   assert (Hinp : curk s (iq_input rq)) by (apply T5; rewrite Hq; now left).
   split; [|split].
   - constructor.
-    + congruence.
     + congruence.
     + intros k Hc. unfold stored. rewrite HR. now apply T3, Hcurk.
     + intros y Ho. destruct (T4 y (O2 y Ho)) as [Hw Hsg]. split; auto. apply (rq_wf_sub rules env F rank s s'); auto.
